@@ -1,0 +1,69 @@
+//go:build verif
+
+package implementation
+
+import (
+	"math/big"
+
+	"github.com/zenon-network/go-zenon/chain/nom"
+	"github.com/zenon-network/go-zenon/consensus/api"
+	"github.com/zenon-network/go-zenon/vm/embedded/definition"
+	"github.com/zenon-network/go-zenon/vm/vm_context"
+)
+
+// Verification-only exports (build tag verif). Read-only wrappers around unexported
+// reward functions so an external harness can compare them with a formal model.
+
+func GetWeightedStakeVerif(info *definition.StakeInfo, startTime, endTime int64) *big.Int {
+	return getWeightedStake(info, startTime, endTime)
+}
+
+func GetWeightedSentinelVerif(info *definition.SentinelInfo, startTime, endTime int64) *big.Int {
+	return getWeightedSentinel(info, startTime, endTime)
+}
+
+func GetWeightedLiquidityStakeVerif(info *definition.LiquidityStakeEntry, startTime, endTime int64) *big.Int {
+	return getWeightedLiquidityStake(info, startTime, endTime)
+}
+
+func GetWeightedStakeAmountVerif(amount *big.Int, stakingTime int64) *big.Int {
+	return getWeightedStakeAmount(amount, stakingTime)
+}
+
+// PillarEpochRewardVerif mirrors the unexported pillarEpochReward.
+type PillarEpochRewardVerif struct {
+	DelegationReward *big.Int
+	BlockReward      *big.Int
+	TotalReward      *big.Int
+	ProducedBlockNum int32
+	ExpectedBlockNum int32
+	Weight           *big.Int
+}
+
+func ComputePillarRewardForEpochVerif(detail *api.EpochStats, name string) *PillarEpochRewardVerif {
+	r := computePillarRewardForEpoch(detail, name)
+	return &PillarEpochRewardVerif{
+		DelegationReward: r.DelegationReward,
+		BlockReward:      r.BlockReward,
+		TotalReward:      r.TotalReward,
+		ProducedBlockNum: r.ProducedBlockNum,
+		ExpectedBlockNum: r.ExpectedBlockNum,
+		Weight:           r.Weight,
+	}
+}
+
+func ComputeDetailedPillarRewardVerif(context vm_context.AccountVmContext, epoch uint64) error {
+	return computeDetailedPillarReward(context, epoch)
+}
+
+func ComputeStakeRewardsForEpochVerif(context vm_context.AccountVmContext, epoch uint64) error {
+	return computeStakeRewardsForEpoch(context, epoch)
+}
+
+func ComputeSentinelRewardsForEpochVerif(context vm_context.AccountVmContext, epoch uint64) error {
+	return computeSentinelRewardsForEpoch(context, epoch)
+}
+
+func ComputeLiquidityStakeRewardsForEpochVerif(context vm_context.AccountVmContext, epoch uint64) ([]*nom.AccountBlock, error) {
+	return computeLiquidityStakeRewardsForEpoch(context, epoch)
+}
